@@ -91,6 +91,19 @@ def run(tier):
     for tok in (unsup if tier == "thorough" else r.sample(unsup, min(len(unsup), 12))):
         cases.append((f"Glc3{tok}", "Glc", {"unsupported-modification"}))
         cases.append((f"Man(a1-4)Glc{tok}", "Man(a1-4)Glc", {"unsupported-modification"}))
+    # a ring-form letter for which the library has no row of that sugar is an unknown monosaccharide
+    rows = [x.split("\x1e") for x in orc.drv.call("librows").split("\x1f") if x]
+    have = {"p": set(), "f": set()}
+    for row in rows:
+        if row[0] in have:
+            have[row[0]].add(row[2])
+    noring = [(nm, "f") for nm in sorted(have["p"] - have["f"])] + [(nm, "p") for nm in sorted(have["f"] - have["p"])]
+    noring = [(nm, rg) for nm, rg in noring if orc.drv.call("accepts", nm + rg) == "1"]
+    ring_cases = 0
+    for nm, rg in (noring if tier == "thorough" else r.sample(noring, min(len(noring), 10))):
+        for text in (nm + rg, f"Gal(b1-4){nm}{rg}", f"{nm}{rg}(a2-3)Gal(b1-4)Glc"):
+            cases.append((text, None, {"unknown-residue"}))
+            ring_cases += 1
     reqs, meta = [], []
     for ci, (text, stripped, obs) in enumerate(cases):
         for full in (True, False):
@@ -141,7 +154,7 @@ def run(tier):
                     {"no_failing_input": True, "what_no_longer_checks": broken, "theorems": names_thm})
     report.assumptions = ["unsupported modification tokens = FG literals of Glycan.g4 that functional_groups does not define (recomputed per run), and positions beyond the carbon chain",
                           "tree_only=True is exempt by the property"]
-    extra = {"rule": "random glycans in which a random subset of residues ('Unk'), modifications (grammar tokens without chemistry, positions beyond the chain), linkages ('?') is made unrealisable, optionally with a detached {fragment}; both values of full; non-trivial = at least one obstacle",
+    extra = {"ring_form_cases": ring_cases, "rule": "random glycans in which a random subset of residues ('Unk', or a ring-form letter for which the library has no row of that sugar: Neuf, Olif, ...), modifications (grammar tokens without chemistry, positions beyond the chain), linkages ('?') is made unrealisable, optionally with a detached {fragment}; both values of full; non-trivial = at least one obstacle",
              "unsupported_tokens": unsup, "conversions": len(reqs),
              "print_assumptions": res.assumptions.get(f"Props/{PROP}.v", "").strip().splitlines()[-4:]}
     return report.finish("proof", ob, dis, names_thm, trusted=C.TRUSTED, extra=extra)
